@@ -105,7 +105,7 @@ pub fn run(rep: &mut Report, tier: &str, seed: u64) {
         &mut |rep, runner, case, r, pi| {
             let globals = crate::props::common::supply_globals(r, &case.loaded.program);
             for lazy in [false, true] {
-                runner.check_mode(rep, case, &RunCfg { lazy, globals: globals.clone(), outer_globals: vec![], debug: None, cancel_at: None }, false, false);
+                runner.check_mode(rep, case, &RunCfg { lazy, globals: globals.clone(), outer_globals: vec![], debug: None, cancel_at: None }, true, false);
             }
             let file = &case.loaded.file;
             let (tree, src, info) = (&case.source.tree, case.source.src.as_str(), case.info);
